@@ -2,7 +2,7 @@
 import enum
 import random
 
-from .. import env, spec
+from .. import env, spec, workload
 
 PROPERTY = "C20"
 LEVEL = "exploration"
@@ -67,7 +67,7 @@ def part_macro(res, rng, types, tier):
                 continue
             res.case(("macro", T, c.name))
             res.count("macro_targets")
-            p = api.Project()
+            p = workload.new_project()
             mod = p.new_module(cls)
             case = {"type": T, "controller": c.name}
             by_obj = rng.random() < 0.5
@@ -105,7 +105,7 @@ def part_macro(res, rng, types, tier):
     for g in range(20 if tier == "quick" else 120):
         k = rng.randint(2, 16)
         picks = rng.sample(all_targets, k)
-        p = api.Project()
+        p = workload.new_project()
         pairs = []
         for T, cname in picks:
             mod = p.new_module(MODULE_CLASSES[sp[T].mtype])
@@ -148,7 +148,7 @@ def part_macro(res, rng, types, tier):
     for k in (17, 18, 25):
         res.case(("macro-too-many", k))
         res.count("macro_refusals")
-        p = api.Project()
+        p = workload.new_project()
         pairs = [(p.new_module(api.m.Amplifier), "volume") for _ in range(k)]
         n_before = len(p.modules)
         try:
@@ -163,7 +163,7 @@ def part_macro(res, rng, types, tier):
     for k in (2, 3, 16):
         res.case(("macro-dup", k))
         res.count("macro_refusals")
-        p = api.Project()
+        p = workload.new_project()
         mods = [p.new_module(api.m.Amplifier) for _ in range(k - 1)]
         pairs = [(m, "volume") for m in mods] + [(mods[rng.randrange(len(mods))], "balance")]
         rng.shuffle(pairs)
@@ -176,7 +176,7 @@ def part_macro(res, rng, types, tier):
         else:
             res.violation("C20:macro-dup-accepted", "macro accepted two targets on one module", {"k": k})
     # exactly 16 is allowed
-    p = api.Project()
+    p = workload.new_project()
     pairs = [(p.new_module(api.m.Amplifier), "volume") for _ in range(16)]
     res.case(("macro-16",))
     try:
@@ -215,7 +215,7 @@ def part_drive(res, rng, n_tuples):
         k = "min1" if t[3] == 1 else ("neg" if t[3] < 0 and t[2] == "range" else t[2])
         by_kind.setdefault(k, []).append(t)
     for ti in range(n_tuples):
-        p = api.Project()
+        p = workload.new_project()
         n_targets = rng.choice([1, 1, 2, 3, 5, 16])
         gain = rng.choice([0, 1, 255, 256, 257, 512, 1024, rng.randint(0, 1024)])
         quant = rng.choice([0, 1, 2, 3, 7, 100, 32767, 32768, rng.randint(0, 32768)])
@@ -402,7 +402,7 @@ def part_histories(res, rng, n_tuples):
     dependent = [(T, c.name, c) for T, t in sorted(sp.items()) for c in t.controllers if c.kind == "dependent" and c.attached]
     inputs = sorted(set(range(0, 32769, 257)) | {0, 1, 2, 32767, 32768})
     for ti in range(n_tuples):
-        p = api.Project()
+        p = workload.new_project()
         first = p.new_module(api.m.Filter)
         n_targets = rng.randint(2, 7)
         mods, chosen, mappings = [], [], []
@@ -514,6 +514,43 @@ def part_histories(res, rng, n_tuples):
                     res.violation(f"C20:not-delivered:{ckind}", f"{T}.{cname} behind a full {'normal' if a < b else 'reversed'} window receives {ends} for inputs 0 and 32768, expected {want_ends} "
                                                               f"(slot {i} of bundle {case})", dict(case, target=i))
                     bad = True
+                    break
+            if bad:
+                continue
+        # asking the bundle what input a destination's current value corresponds to (reflect, without sending it) is a QUERY: the
+        # windows are as they were and a further sweep still runs in each link's direction
+        windows_before = [(x.min, x.max, x.controller) for x in mc.mappings.values[:n_targets]]
+        asked = 0
+        for i in range(n_targets):
+            if chosen[i][7] == 0 or i in dead or i in unplugged or chosen[i][2] in ("dependent", "compact"):
+                continue
+            try:
+                mc.reflect(i, propagate=False)
+                asked += 1
+            except Exception:
+                res.count("reflect_queries_refused")
+        if asked:
+            res.count("reflect_queries", asked)
+            windows_after = [(x.min, x.max, x.controller) for x in mc.mappings.values[:n_targets]]
+            if windows_after != windows_before:
+                k = next(i for i in range(n_targets) if windows_after[i] != windows_before[i])
+                res.violation("C20:reflect-changed-window", f"reflect({k}, propagate=False) changed the link's window from {windows_before[k][:2]} to {windows_after[k][:2]} (bundle {case})", dict(case, target=k))
+                continue
+            prev2 = [None] * n_targets
+            for v in inputs[::8] + [32768]:
+                mc.value = v
+                for i, (m, c) in enumerate(zip(mods, chosen)):
+                    T, cname, ckind, lo, hi, a, b, number = c
+                    if number == 0 or i in dead or i in unplugged or ckind == "dependent":
+                        continue
+                    got = _val(getattr(m, cname))
+                    pv = prev2[i]
+                    if pv is not None and ((a <= b and got < pv) or (a > b and got > pv)):
+                        res.violation(f"C20:not-monotone:{ckind}:{'normal' if a <= b else 'reversed'}:after-reflect", f"after reflect queries, value={v}: {T}.{cname} received {got} after {pv} (bundle {case})", dict(case, input=v, target=i))
+                        bad = True
+                        break
+                    prev2[i] = got
+                if bad:
                     break
             if bad:
                 continue
